@@ -21,7 +21,7 @@ func (hl *HashLiteral) String() string {
 	pairs := []string{}
 	for _, key := range hl.Order {
 		p := hl.Pairs[key]
-		pairs = append(pairs, key.String()+": "+p.String())
+		pairs = append(pairs, nodeString(key)+": "+nodeString(p))
 	}
 
 	out.WriteString("{")
